@@ -313,79 +313,132 @@ def run(ctx, ck):
     ok = 'self.a[:len(a)] = a' in txt and 'self.b[:len(b)] = b' in txt
     ck.ob('R-POLY.circuit', 'Laplace_Load.__init__|stores a,b', ok, lap.loc(),
           'denominator a and numerator b stored zero-padded')
+    from ..symx import SymExec, loop_transformer, copy_replace
+    from ..poly import poly_roles, roles_of_text, cancel
     imp = m.func('mininec.Laplace_Load.impedance')
-    ifl = ctx.flow(imp)
-    ret = [n for n in walk_no_nested(imp.node) if isinstance(n, ast.Return)]
+    # the evaluation loop as a state transformer: N' = N + b[j]*M, D' = D + a[j]*M, M' = M*s with
+    # N = D = 0, M = 1 initially and s = j*2*pi*f*1e6; the result is N / D   (Horner-free power sum)
     ok, why = False, 'unexpected shape'
-    if len(ret) == 1 and isinstance(ret[0].value, ast.BinOp) and isinstance(ret[0].value.op, ast.Div):
-        nu, de = ret[0].value.left, ret[0].value.right
-        augs = {norm(s.target): s for s in walk_no_nested(imp.node) if isinstance(s, ast.AugAssign)}
-        un, dn = norm(nu), norm(de)
-        if un in augs and dn in augs:
-            pu, pd = product_of(augs[un].value), product_of(augs[dn].value)
-            mu = [t for t, x in pu.num if not t.startswith('self.')]
-            okn = any(t.startswith('self.b[') for t, _ in pu.num) and any(t.startswith('self.a[') for t, _ in pd.num)
-            pw = [s for s in augs.values() if isinstance(s.op, ast.Mult)]
-            oks = False
-            if len(pw) == 1 and mu and norm(pw[0].target) == mu[0]:
-                pp = product_of(ifl.inline(pw[0].value, ifl.node_id_of(pw[0])))
-                nn, dd = pp.texts()
-                oks = abs(pp.coef - 2e6j) < 1e-3 and nn == ['f', 'np.pi'] and not dd
-                why = 's = %r * %s' % (pp.coef, nn)
-            ok = okn and oks and isinstance(augs[un].op, ast.Add) and isinstance(augs[dn].op, ast.Add)
+    lps = [l for l in imp.body() if isinstance(l, (ast.For, ast.While))]
+    if len(lps) == 1 and isinstance(lps[0], ast.For) and isinstance(lps[0].target, ast.Name):
+        lp = lps[0]
+        jv_ = lp.target.id
+        pre, carried, bpaths, post = loop_transformer(ctx, imp, lp)
+        bpaths = [p_ for p_ in bpaths if p_.end is None]
+        post = [p_ for p_ in post if p_.end == 'return']
+        rng = norm(lp.iter) in ('range(len(self.a))', 'range(len(self.b))', 'range(self.degree + 1)')
+        if len(bpaths) == 1 and len(post) == 1 and rng and isinstance(post[0].ret, ast.BinOp) and \
+           isinstance(post[0].ret.op, ast.Div) and isinstance(post[0].ret.left, ast.Name) and \
+           isinstance(post[0].ret.right, ast.Name):
+            N, D = post[0].ret.left.id, post[0].ret.right.id
+            env1 = bpaths[0].env
+
+            def P(e_):
+                return cancel(poly_roles(e_, {}))
+            try:
+                dN = cancel(P(env1[N]) - Poly.var(N))
+                dD = cancel(P(env1[D]) - Poly.var(D))
+                cand = [v_ for v_ in carried - {N, D, jv_} if v_ in env1]
+                M = [v_ for v_ in cand if cancel(dN - Poly.var('b[%s]' % jv_) * Poly.var(v_)).t == {}]
+                ok = len(M) == 1 and cancel(dD - Poly.var('a[%s]' % jv_) * Poly.var(M[0])).t == {}
+                why = 'numerator step %r, denominator step %r' % (dN, dD)
+                if ok:
+                    step = cancel(P(env1[M[0]]) - Poly.var(M[0]) * roles_of_text('1j * 2 * pi * f * 1e6'))
+                    zero = lambda e_: cancel(P(e_)).t == {}
+                    one = cancel(P(pre[M[0]]) - Poly.const(1)).t == {} if M[0] in pre else False
+                    ok = step.t == {} and one and N in pre and D in pre and zero(pre[N]) and zero(pre[D])
+                    why = ('N += b[j] * M, D += a[j] * M, M *= j 2 pi f 1e6, start 0, 0, 1' if ok else
+                           'power step residue %r, initial values %s / %s / %s' % (
+                               step, norm(pre.get(N)) if pre.get(N) is not None else None,
+                               norm(pre.get(D)) if pre.get(D) is not None else None,
+                               norm(pre.get(M[0])) if pre.get(M[0]) is not None else None))
+            except (ValueError, KeyError) as e_:
+                ok, why = False, 'not understood: %s' % e_
     ck.ob('R-POLY.circuit', 'Laplace_Load.impedance|sum b s^j / sum a s^j', ok, imp.loc(), why)
 
-    # Series RLC
-    rlc = m.func('mininec.Series_RLC_Load.__init__')
-    call, amap = super_init_args(rlc, m)
+    # Series RLC / trap: coefficient lists handed to Laplace_Load.__init__ on every constructor path
     R, L, C = Poly.var('R'), Poly.var('L'), Poly.var('C')
-    env = {'self.r': R, 'self.l': L, 'self.c': C, 'r': R, 'l': L, 'R': R, 'L': L, 'C': C}
-    rfl = ctx.flow(rlc)
+    env = {'self.r': R, 'self.l': L, 'self.c': C, 'R': R, 'L': L, 'C': C}
+    base_params = m.func('mininec.Laplace_Load.__init__').params[1:]
+
+    def or_zero(e_):
+        # `X or 0`: a missing element counts as zero
+        def fn(n_):
+            if isinstance(n_, ast.BoolOp) and isinstance(n_.op, ast.Or) and len(n_.values) == 2 and \
+               isinstance(n_.values[1], ast.Constant) and n_.values[1].value == 0:
+                return copy_replace(n_.values[0], fn)
+            return None
+        return copy_replace(e_, fn)
+
+    def super_calls(func):
+        """[(path, {base param: substituted arg})] for the super().__init__ call on each path"""
+        out = []
+        for p_ in SymExec(ctx, func).run():
+            if p_.end == 'raise':
+                continue
+            hits = [(c_, st_) for c_, st_ in p_.calls if isinstance(c_.func, ast.Attribute) and c_.func.attr == '__init__'
+                    and isinstance(c_.func.value, ast.Call) and norm(c_.func.value.func) == 'super']
+            if len(hits) != 1:
+                out.append((p_, None, None))
+                continue
+            c_, st_ = hits[0]
+            amap = {}
+            for i_, a_ in enumerate(c_.args):
+                amap[base_params[i_]] = a_
+            for k_ in c_.keywords:
+                amap[k_.arg] = k_.value
+            out.append((p_, amap, st_))
+        return out
+    rlc = m.func('mininec.Series_RLC_Load.__init__')
     n_alt = 0
-    if call is not None and 'a' in amap and 'b' in amap:
-        an, bn = amap['a'], amap['b']
-        nid = rfl.node_id_of(call)
-        adefs = [d for d in rfl.def_exprs(an.id, nid) if d[0] == 'assign'] if isinstance(an, ast.Name) else []
-        bdefs = {d[2]: d for d in rfl.def_exprs(bn.id, nid) if d[0] == 'assign'} if isinstance(bn, ast.Name) else {}
-        for d in adefs:
-            guards = if_chain_preds(rfl.cfg, d[2])
-            # partner definition of b in the same branch
-            bd = [x for x in bdefs.values() if if_chain_preds(rfl.cfg, x[2]) == guards]
-            if len(bd) != 1:
-                continue
-            try:
-                a = coef_list(d[1], env)
-                b = coef_list(bd[0][1], env)
-            except ValueError as e:
-                ck.ob('R-POLY.circuit', 'Series_RLC_Load|%s' % (guards,), False, rlc.loc(), str(e))
-                continue
-            with_c = any(t == 'C' and br for t, br in guards)
-            if with_c:
-                # R + sL + 1/(sC) = (1 + sRC + s^2 LC) / (sC)
-                num = [Poly.const(1), R * C, L * C]
-                den = [Poly(), C]
-            else:
-                num = [R, L]
-                den = [Poly.const(1)]
-            ok = ratio_equal(b, a, num, den)
-            ck.ob('R-POLY.circuit', 'Series_RLC_Load|%s' % ('with C' if with_c else 'without C'), ok,
-                  rlc.loc(call), 'b=%s a=%s %s R + sL%s' % (b, a, '==' if ok else '!=',
-                                                           ' + 1/(sC)' if with_c else ''))
+    seen_alt = set()
+    for p_, amap, st_ in super_calls(rlc):
+        cvals = [b_ for t_, b_ in p_.conds if t_ == 'C' and isinstance(b_, bool)]
+        if amap is None or 'a' not in amap or 'b' not in amap or len(cvals) != 1:
+            ck.ob('R-POLY.circuit', 'Series_RLC_Load|path %s' % (p_.conds,), False, rlc.loc(),
+                  'constructor path without a recognisable super().__init__(a, b) / test of C')
+            continue
+        with_c = cvals[0]
+        try:
+            a = coef_list(or_zero(amap['a']), env)
+            b = coef_list(or_zero(amap['b']), env)
+        except ValueError as e:
+            ck.ob('R-POLY.circuit', 'Series_RLC_Load|%s' % ('with C' if with_c else 'without C'), False, rlc.loc(), str(e))
+            continue
+        if with_c:
+            # R + sL + 1/(sC) = (1 + sRC + s^2 LC) / (sC)
+            num = [Poly.const(1), R * C, L * C]
+            den = [Poly(), C]
+        else:
+            num = [R, L]
+            den = [Poly.const(1)]
+        ok = ratio_equal(b, a, num, den)
+        if with_c not in seen_alt:
             n_alt += 1
+        seen_alt.add(with_c)
+        ck.ob('R-POLY.circuit', 'Series_RLC_Load|%s' % ('with C' if with_c else 'without C'), ok,
+              rlc.loc(st_), 'b=%s a=%s %s R + sL%s' % (b, a, '==' if ok else '!=', ' + 1/(sC)' if with_c else ''))
     ck.floor('Series_RLC coefficient alternatives', n_alt, 2)
     # Trap
     trap = m.func('mininec.Trap_Load.__init__')
-    call, amap = super_init_args(trap, m)
-    ok, why = False, 'super().__init__(a=..., b=...) not found'
-    if call is not None and 'a' in amap and 'b' in amap:
+    tc = [x for x in super_calls(trap)]
+    ok, why = bool(tc), 'super().__init__(a=..., b=...) not found'
+    st_ = None
+    for p_, amap, st_ in tc:
+        if amap is None or 'a' not in amap or 'b' not in amap:
+            ok, why = False, 'super().__init__(a=..., b=...) not found on the path %s' % (p_.conds,)
+            break
         try:
-            a = coef_list(amap['a'], env)
-            b = coef_list(amap['b'], env)
-            ok = ratio_equal(b, a, [R, L], [Poly.const(1), R * C, L * C])
-            why = 'b=%s a=%s %s (R+sL) || 1/(sC)' % (b, a, '==' if ok else '!=')
+            a = coef_list(or_zero(amap['a']), env)
+            b = coef_list(or_zero(amap['b']), env)
+            ok1 = ratio_equal(b, a, [R, L], [Poly.const(1), R * C, L * C])
+            why = 'b=%s a=%s %s (R+sL) || 1/(sC)' % (b, a, '==' if ok1 else '!=')
+            ok = ok and ok1
         except ValueError as e:
-            why = str(e)
-    ck.ob('R-POLY.circuit', 'Trap_Load', ok, trap.loc(call), why)
+            ok, why = False, str(e)
+        if not ok:
+            break
+    ck.ob('R-POLY.circuit', 'Trap_Load', ok, trap.loc(st_), why)
     # Impedance load: constant
     il = m.func('mininec.Impedance_Load.__init__')
     ok = any(norm(s) == 'self._impedance = impedance' for s in il.body())
@@ -394,22 +447,28 @@ def run(ctx, ck):
     ok = ok and len(rr) == 1 and norm(rr[0].value) == 'self._impedance'
     ck.ob('R-POLY.circuit', 'Impedance_Load', ok, il.loc(), 'impedance(f) returns the constructor value')
 
-    # skin effect: conductivity
+    # skin effect: conductivity as stored at the end of every constructor path
     se = m.func('mininec.Skin_Effect_Load.__init__')
-    asg = assigns_to_attr(se, 'self.conductivity')
-    derived = [a for a in asg if not (isinstance(a.value, ast.Name))]
-    ok = len(derived) == 1
-    why = '%d derivations of conductivity' % len(derived)
-    if ok:
-        p = product_of(derived[0].value)
-        nn, dd = p.texts()
-        ok = p.coef == 1 and not nn and dd == ['self.resistivity']
-        why = 'self.conductivity = %s' % norm(derived[0].value)
-    ck.ob('R-DEP.skin', se.qual + '|1/resistivity', ok, se.loc(), why)
+    finals = []
+    for p_ in SymExec(ctx, se).run():
+        if p_.end == 'raise':
+            continue
+        last = [v_ for k_, v_, st_ in p_.stores if k_ == 'self.conductivity']
+        given = [b_ for t_, b_ in p_.conds if t_ == 'conductivity is None' and isinstance(b_, bool)]
+        finals.append((given[-1] if given else None, norm(last[-1]) if last else None))
+    want = {(True, '1 / resistivity'), (False, 'conductivity')}
+    ok = bool(finals) and set(finals) <= want | {(None, 'conductivity')} and (True, '1 / resistivity') in set(finals)
+    ck.ob('R-DEP.skin', se.qual + '|1/resistivity', ok, se.loc(),
+          'self.conductivity at the end of the constructor paths (conductivity missing?, value): %s' % sorted(set(finals), key=str))
     si = m.func('mininec.Skin_Effect_Load.impedance')
-    reads = {e.attr for e in prog.effects[si.qual] if e.cls == 'Skin_Effect_Load' and e.mode == 'read'}
-    ck.ob('R-DEP.skin', si.qual + '|reads', 'conductivity' in reads and 'resistivity' not in reads, si.loc(),
-          'impedance reads load attributes %s' % sorted(reads))
+    from ..rules import self_closure
+    reads = set()
+    for g_ in self_closure(ctx, si):
+        for n_ in walk_no_nested(g_.node):
+            if isinstance(n_, ast.Attribute) and n_.attr in ('conductivity', 'resistivity'):
+                reads.add(n_.attr)
+    ck.ob('R-DEP.skin', si.qual + '|reads', reads == {'conductivity'}, si.loc(),
+          'impedance (with its helpers) reads %s' % sorted(reads))
 
     # ---------------------------------------------------------------- closed-form distributed loads
     # compared as rational functions over role-named atoms (robust to renaming and reordering)
@@ -437,59 +496,75 @@ def run(ctx, ck):
         except (ValueError, ZeroDivisionError) as e_:
             ok, why = False, 'expression not understood: %s' % e_
         ck.ob('R-FORM.distributed', key, ok, func.loc(node), why)
+    # The value returned per loop iteration is obtained as ONE closed expression per path by the
+    # symbolic path walk (temporaries, flags and private helpers of the class are looked through)
+    # and compared, as a polynomial over role-named atoms, with the documented formula.
+    from ..symx import SymExec
+
+    def path_forms(func):
+        out = []
+        for p_ in SymExec(ctx, func).run():
+            if p_.end != 'return' or p_.ret is None:
+                continue
+            try:
+                pol = cancel(poly_roles(p_.ret, {}))
+            except (ValueError, ZeroDivisionError) as e_:
+                pol = 'not understood: %s' % e_
+            out.append((p_, pol))
+        return out
+
+    def form_ob(func, key, want_texts, select, text):
+        """the paths chosen by select(conds) return exactly the set of documented forms"""
+        forms = [(p_, pol) for p_, pol in path_forms(func) if select(p_.conds)]
+        want = [roles_of_text(t_) for t_ in want_texts]
+        got = [pol for p_, pol in forms]
+        ok = bool(got) and all(not isinstance(g_, str) for g_ in got) and \
+            all(any(cancel(g_ - w_).t == {} for w_ in want) for g_ in got) and \
+            all(any(cancel(g_ - w_).t == {} for g_ in got) for w_ in want)
+        why = text
+        if not ok:
+            bad = [(p_, g_) for p_, g_ in forms if isinstance(g_, str) or not any(cancel(g_ - w_).t == {} for w_ in want)]
+            if bad:
+                why = 'on the path %s the contribution is %s, documented: %s' % (
+                    [c_ for c_ in bad[0][0].conds if c_[0] not in ('loop',)][-2:], norm(bad[0][0].ret)[:160], want_texts)
+            else:
+                why = 'documented form never produced: %s (paths: %d)' % (want_texts, len(got))
+        ck.ob('R-FORM.distributed', key, ok, func.loc(), why)
+        return len(forms)
+
+    def cond_has(conds, frag, val):
+        return any(isinstance(b_, bool) and b_ is val and frag in t_ for t_, b_ in conds)
     se_i = m.func('mininec.Skin_Effect_Load.impedance')
-    env = local_env(se_i)
-    zi = [s_ for s_ in walk_no_nested(se_i.node) if isinstance(s_, ast.Assign) and
-          isinstance(s_.targets[0], ast.Name) and s_.targets[0].id == 'zint']
-    ks = [s_ for s_ in walk_no_nested(se_i.node) if isinstance(s_, ast.Assign) and
-          isinstance(s_.targets[0], ast.Name) and s_.targets[0].id == 'k']
-    if len(zi) != 1 or len(ks) != 1:
-        raise AnalysisError('skin effect: zint / k definitions not found')
-    env_k = {k_: v for k_, v in env.items() if k_ in ('omg', 'fhz')}
-    # zint = k / (2 pi a sigma) * b   (b = J0(ka)/J1(ka) or its large-argument limit)
-    same(zi[0].value, {}, 'k / (2 * pi * r_orig * conductivity) * b', se_i.qual + '|zint', se_i, zi[0])
-    kv = ks[0].value
-    ok = isinstance(kv, ast.Call) and (dotted(kv.func) or '').endswith('sqrt') and len(kv.args) == 1
-    if ok:
-        same(kv.args[0], env_k, '-1j * (2 * pi * (f * 1e6)) * mu_0 * conductivity', se_i.qual + '|k^2', se_i, ks[0])
-    else:
-        ck.ob('R-FORM.distributed', se_i.qual + '|k^2', False, se_i.loc(ks[0]), 'k is not a square root')
-    bs = [s_ for s_ in walk_no_nested(se_i.node) if isinstance(s_, ast.Assign) and
-          isinstance(s_.targets[0], ast.Name) and s_.targets[0].id == 'b']
-    forms = sorted(norm(s_.value) for s_ in bs)
-    ok = forms == ['1j', 'jv(0, kr) / jv(1, kr)']
-    if ok:
-        krd = env.get('kr')
-        ok = krd is not None and cancel(poly_roles(krd, {}) - roles_of_text('k * r_orig')).t == {}
-    ck.ob('R-FORM.distributed', se_i.qual + '|bessel-ratio', ok, se_i.loc(bs[0] if bs else None),
-          'b = J0(k a) / J1(k a), asymptote 1j: %s' % forms)
-    acc = [s_ for s_ in walk_no_nested(se_i.node) if isinstance(s_, ast.AugAssign) and isinstance(s_.op, ast.Add)]
-    ok = len(acc) == 1
-    if ok:
-        # x += l * zint (the cached pair's value); l = | dvecs(i - 0.5)[0] - dvecs(...)[1] |
-        pr = product_of(acc[0].value)
-        nn, dd = pr.texts()
-        ok = len(nn) == 2 and 'l' in nn and any('zint' in t for t in nn) and not dd and pr.coef == 1
-        ld_ = env.get('l')
-        dv_ = env.get('dv')
-        ok = ok and ld_ is not None and norm(ld_) == 'np.linalg.norm(dv[0] - dv[1])' and \
-            dv_ is not None and norm(dv_) == 'pulse.dvecs(i - 0.5)'
-    ck.ob('R-FORM.distributed', se_i.qual + '|length-of-half', ok, se_i.loc(acc[0] if acc else None),
-          'adds (length of the half segment on object i) * zint of that object')
+    K2 = '(-1j * (2 * pi * (f * 1e6)) * mu_0 * conductivity)'
+    HALF = 'norm(dvecs(i - 0.5)[0] - dvecs(i - 0.5)[1])'
+    PER_LEN = 'sqrt(%s) / (2 * pi * r_orig * conductivity)' % K2
+    BESSEL = 'jv(0, sqrt(%s) * r_orig) / jv(1, sqrt(%s) * r_orig)' % (K2, K2)
+    miss = lambda cs: cond_has(cs, 'zint is None', True)
+    hit = lambda cs: any(t_ == 'loop' for t_, b_ in cs) and cond_has(cs, 'zint is None', False)
+    n1 = form_ob(se_i, se_i.qual + '|zint', ['%s * %s * (%s)' % (HALF, PER_LEN, BESSEL), '%s * %s * 1j' % (HALF, PER_LEN)],
+                 miss, 'contribution = |half segment| * k / (2 pi a sigma) * J0(ka)/J1(ka) (or its limit 1j), '
+                 'k = sqrt(-j omega mu0 sigma)')
+    n2 = form_ob(se_i, se_i.qual + '|length-of-half', ['%s * zint[1]' % HALF], hit,
+                 'cached value is multiplied by the length of the half segment on object i')
+    form_ob(se_i, se_i.qual + '|no-objects', ['0'], lambda cs: any(t_ == 'loop-skipped' for t_, b_ in cs),
+            'nothing is added for a pulse without skin-effect objects')
+    ck.floor('skin-effect paths (cache miss / hit)', min(n1, 2) + min(n2, 1), 3)
+    # the Bessel ratio is used below the overflow threshold, the asymptote above
+    thr = [(t_, b_, pol) for p_, pol in path_forms(se_i) if miss(p_.conds) for t_, b_ in p_.conds
+           if isinstance(b_, bool) and t_.startswith('abs(')]
+    ok = len(thr) == 2 and all(('jv(' in repr(pol)) == (b_ if '<' in t_ else not b_) for t_, b_, pol in thr)
+    ck.ob('R-FORM.distributed', se_i.qual + '|bessel-ratio', ok, se_i.loc(),
+          'Bessel ratio below the threshold on |k a|, asymptote above: %s' % sorted({(t_[-12:], b_) for t_, b_, pol_ in thr}))
     in_i = m.func('mininec.Insulation_Load.impedance')
-    zs = [s_ for s_ in walk_no_nested(in_i.node) if isinstance(s_, ast.Assign) and
-          isinstance(s_.targets[0], ast.Attribute) and s_.targets[0].attr == 'zins']
-    if len(zs) != 1:
-        raise AnalysisError('insulation: zins definition not found')
-    same(zs[0].value, {}, 'mu_0 * (epsilon_r - 1) / epsilon_r * log(radius / r_orig) / (2 * pi)',
-         in_i.qual + '|zins', in_i, zs[0])
-    acc = [s_ for s_ in walk_no_nested(in_i.node) if isinstance(s_, ast.AugAssign) and isinstance(s_.op, ast.Add)]
-    if len(acc) == 1:
-        env_i = {k_: v for k_, v in local_env(in_i).items() if k_ in ('omg', 'fhz')}
-        same(acc[0].value, env_i, 'zins * (2 * pi * (f * 1e6)) * 1j * (seg_len / 2)', in_i.qual + '|contribution',
-             in_i, acc[0])
-    else:
-        ck.ob('R-FORM.distributed', in_i.qual + '|contribution', False, in_i.loc(), '%d accumulations' % len(acc))
+    ZINS = 'mu_0 * (epsilon_r - 1) / epsilon_r * log(radius / r_orig) / (2 * pi)'
+    OMG = '(2 * pi * (f * 1e6))'
+    imiss = lambda cs: cond_has(cs, 'zins is None', True)
+    ihit = lambda cs: cond_has(cs, 'zins is None', False)
+    n1 = form_ob(in_i, in_i.qual + '|zins', ['%s * %s * 1j * (seg_len / 2)' % (ZINS, OMG)], imiss,
+                 'contribution = j omega * mu0 (eps_r - 1)/eps_r * ln(b/a) / (2 pi) * half segment length')
+    n2 = form_ob(in_i, in_i.qual + '|contribution', ['zins * %s * 1j * (seg_len / 2)' % OMG], ihit,
+                 'cached per-length inductance * j omega * half segment length')
+    ck.floor('insulation paths (cache miss / hit)', min(n1, 1) + min(n2, 1), 2)
     gr = m.func('mininec.Geobj.r')
     rets = [r_ for r_ in walk_no_nested(gr.node) if isinstance(r_, ast.Return)]
     env_r = local_env(gr)
@@ -517,16 +592,28 @@ def run(ctx, ck):
     d = pi.defaults().get('yield_ends')
     ok = isinstance(d, ast.Constant) and d.value is True and 'self.pulses' in ' '.join(norm(l.iter) for l in loops_in(pi.node))
     ck.ob('R-EXH.attach', pi.qual, ok, pi.loc(), 'pulse_iter() default yields all of self.pulses incl. junction pulses')
-    apps = [c for c in walk_no_nested(rl.node) if isinstance(c, ast.Call) and isinstance(c.func, ast.Attribute)
-            and c.func.attr == 'append' and norm(c.func.value) == 'self.loads']
-    nums = [s_ for s_ in walk_no_nested(rl.node) if isinstance(s_, ast.Assign) and norm(s_.targets[0]) == 'load.n']
-    ok = len(apps) >= 1 and len(apps) == len(nums)
-    for c in apps + nums:
-        g = [t for t, b in if_chain_preds(rfl2.cfg, rfl2.node_id_of(c)) if b]
-        ok = ok and 'load.n is None' in g
-    ok = ok and all(norm(s_.value) == 'len(self.loads)' for s_ in nums)
+    # registration (possibly in a private helper called from register_load)
+    cl = prog.closure([rl], edge_filter=lambda e: e.kind == 'call' and e.callee.cls is rl.cls)
+    apps = []
+    ok = True
+    for q_ in cl:
+        g_ = m.funcs[q_]
+        gfl_ = ctx.flow(g_)
+        for c in walk_no_nested(g_.node):
+            if isinstance(c, ast.Call) and isinstance(c.func, ast.Attribute) and c.func.attr == 'append' \
+               and norm(c.func.value) == 'self.loads' and len(c.args) == 1:
+                apps.append(c)
+                owner = norm(c.args[0])
+                gds = [t for t, b in if_chain_preds(gfl_.cfg, gfl_.node_id_of(c)) if b]
+                nums = [s_ for s_ in walk_no_nested(g_.node) if isinstance(s_, ast.Assign) and
+                        norm(s_.targets[0]) == '%s.n' % owner]
+                ok = ok and ('%s.n is None' % owner) in gds and len(nums) >= 1 and \
+                    all(norm(s_.value) == 'len(self.loads)' and
+                        ('%s.n is None' % owner) in [t for t, b in if_chain_preds(gfl_.cfg, gfl_.node_id_of(s_)) if b]
+                        for s_ in nums)
+    ok = ok and len(apps) >= 1
     ck.ob('R-EXH.attach', rl.qual + '|register-once', ok, rl.loc(),
-          'a load is numbered len(self.loads) and appended only under `load.n is None` (%d sites)' % len(apps))
+          'a load is numbered len(self.loads) and appended only under `<load>.n is None` (%d sites)' % len(apps))
     ap = m.func('mininec._Load.add_pulse')
     ok = [norm(s) for s in ap.body()] == ['self.pulses.append(pulse)']
     ck.ob('R-EXH.attach', ap.qual, ok, ap.loc(), 'add_pulse appends the pulse once')
